@@ -897,6 +897,11 @@ pub fn part_d_p(ctx: &mut Ctx, prop: &str) {
                 Ok(t) => t,
                 Err(_) => continue,
             };
+            if t > n_poly {
+                ctx.rep.expect_fail(&id, "lincode/calculate_t-above-codeword-length",
+                    &format!("calculate_t(λ={}, d={:?}, n={}) = {} exceeds the codeword length n (the count is capped at n)", sec, pp.distance(), n_poly, t),
+                    format!("# property {}: number of column openings capped at the codeword length\n# case: {}\n# calculate_t::<bls12-381 Fr>({}, {:?}, {}) = {}\n", prop, id, sec, pp.distance(), n_poly, t));
+            }
             match guarded(|| pp.compute_dimensions(n_poly)) {
                 Ok(got) => dims_case(ctx, &id, "ligero", n_poly, t, got),
                 Err(a) => ctx.rep.expect_fail(&id, "ligero/compute-dimensions-aborted", &format!("compute_dimensions({}) aborted: {}", n_poly, a), format!("# sec={} rho_inv={} N={}\n", sec, rho, n_poly)),
